@@ -893,8 +893,10 @@ class DataReference(object):
             for path in agg_references:
                 if os.path.exists(path):
                     try:
-                        with open(path, 'r') as f:
-                            contents.append(f.read().rstrip('\n'))
+                        # VV: read the bytes (text mode translates \r\n and \r) and decode them like an `:output`
+                        # reference does, a file which is not valid utf-8 is not a missing file
+                        with open(path, 'rb') as f:
+                            contents.append(f.read().decode('utf-8', 'replace').rstrip('\n'))
                     except Exception as e:
                         graphLogger.warning("Could not read LoopOutput reference %s on behalf of %s. Error: %s" % (
                             path, self.stringRepresentation, e
